@@ -90,7 +90,7 @@ def run(tier, seed):
         mc_cfgs=["PaySendMC.cfg", "PaySendMC2.cfg"] if not thorough else ["PaySendMCt.cfg", "PaySendMC2t.cfg", "PaySendMC3t.cfg"],
         compile_fn=lambda s, rng, consts: pc.compile_send_script(s, rng),
         random_fn=lambda rng, consts: pc.random_send_script(rng),
-        n_tlc=6000 if thorough else 900, n_rand=12000 if thorough else 900,
+        n_tlc=6000 if thorough else 700, n_rand=12000 if thorough else 800,
         need={"ev_PaymentSent": 50, "ev_PaymentFailed": 50, "ev_PaymentPathFailed": 50, "restart": 30, "send_dup": 20,
               "send_multipart": 50, "runs_with_repeated_PaymentSent": 1, "runs_with_repeated_PaymentFailed": 1, "quiet": 100},
         selftests=SELFTESTS, pick=pick,
